@@ -49,6 +49,8 @@ inductive FAtom where
   | label
   /-- `krt.FilterIndex(namespaceIndex(sec), i.ns)` -/
   | nsIndex
+  /-- `krt.FilterIndex(valueIndex(sec), i.val)`: an index whose key changes when the object changes -/
+  | valIndex
   /-- `krt.FilterGeneric(pred n i)` -/
   | generic (n : Nat)
   deriving DecidableEq, Repr, Inhabited
@@ -67,6 +69,7 @@ def FAtom.matches (i : Obj) : FAtom → Obj → Bool
   | .selectsNE, o => !o.sel.isEmpty && subsetOf o.sel i.labels
   | .label, o => subsetOf i.sel o.labels
   | .nsIndex, o => o.ns == i.ns
+  | .valIndex, o => o.val == i.val
   | .generic n, o => genericPred n i o
 
 /-- A fetch = a conjunction of atoms. -/
